@@ -215,15 +215,18 @@ def oracle_moves(cases, impl):
     """a live entry never moves to another record (needs _doc from oracle_doc)"""
     out = []
     for c in cases:
-        if c.kind != 'avl':
+        if c.kind not in ('avl', 'hash'):
             continue
         prev = None
         for a in steps_of(impl, c.id):
             d = a.get('_doc')
-            if not d or 'tree' not in d:
+            if not d or ('tree' not in d and 'chains' not in d):
                 prev = None
                 continue
-            cur = {int(k): int(s) for s, k in re.findall(r'[,(](\d+):(-?\d+):', d['tree'])}
+            if c.kind == 'avl':
+                cur = {int(k): int(s) for s, k in re.findall(r'[,(](\d+):(-?\d+):', d['tree'])}
+            else:
+                cur = {int(v): int(s) for s, v in re.findall(r'(\d+):(-?\d+)', d['chains'])}
             if prev is not None:
                 op = c.ops[a['i']].split(' ')
                 for k, s in cur.items():
